@@ -5,6 +5,7 @@ import (
 	"context"
 	"fmt"
 	"os"
+	"strconv"
 	osexec "os/exec"
 	"path/filepath"
 	"sort"
@@ -48,7 +49,26 @@ var solvers = map[string]solverSpec{
 	"cvc5":   {"cvc5", []string{"cvc5", "--lang=smt2", "-q"}},
 }
 
+// procSem bounds the number of solver processes that run at the same time, over all queries and
+// racers of this process. The machine slows every process down sharply once more processes than
+// cores are runnable (measured: 0.4 s alone, 2 s with 16, 5 s with 32 copies of the same query), and
+// a timeout caused by the verifier's own load would be reported as an undischarged obligation. The
+// budget of a solver run starts when it gets its slot.
+var procSem = func() chan struct{} {
+	n := 10
+	if v, err := strconv.Atoi(os.Getenv("GOVC_PROCS")); err == nil && v > 0 {
+		n = v
+	}
+	return make(chan struct{}, n)
+}()
+
 func runSolver(ctx context.Context, s solverSpec, file string, timeout time.Duration) (status string, out string, dur float64) {
+	select {
+	case procSem <- struct{}{}:
+		defer func() { <-procSem }()
+	case <-ctx.Done():
+		return "timeout", "", 0
+	}
 	cctx, cancel := context.WithTimeout(ctx, timeout)
 	defer cancel()
 	args := append([]string{}, s.cmd[1:]...)
@@ -238,6 +258,11 @@ func (p *Prog) solve(pr *prepared, cfg SolveConfig) *Outcome {
 		tmo := cfg.Timeout
 		if i < len(levels)-1 && tmo > 4*time.Second {
 			tmo = 4 * time.Second
+		}
+		if i == 0 && len(levels) > 1 && tmo > 2*time.Second {
+			// goals that need quantified facts are often hard to refute without them: a short first
+			// try (the full budget comes back as z3-new/L0-full if everything else fails)
+			tmo = 2 * time.Second
 		}
 		// race z3-new and cvc5; the first "unsat" cancels the other
 		rctx, cancel := context.WithCancel(ctx)
